@@ -39,6 +39,62 @@ func pathSaysNil(p *TPath, slot string) bool {
 	return false
 }
 
+// pathSaysNonNil: the path condition states that the child slot is present.
+func pathSaysNonNil(p *TPath, slot string) bool {
+	for _, cd := range p.Conds {
+		if (cd.E.S == "(n."+slot+" != nil)" && cd.Val) || (cd.E.S == "(n."+slot+" == nil)" && !cd.Val) {
+			return true
+		}
+	}
+	return false
+}
+
+// checkFormatListEmpty: formatList allocates len(nodes)-1 separators; parsed trees have empty lists (`list()`,
+// `array()`, `[]`), so every path of the helper that allocates must be conditioned on a non-empty list.
+func (c *CheckCtx) checkFormatListEmpty(f *traceFamily, prefix string) {
+	fn := f.Methods["formatList"]
+	if fn == nil {
+		return
+	}
+	paths, errs := f.trace("formatList")
+	if errs != "" {
+		c.addOb(prefix+"/helper/formatList/nil/empty-list", "nil", "", false, "cannot trace formatList: "+errs)
+		return
+	}
+	var bad []string
+	for _, p := range paths {
+		allocates := false
+		var walk func(evs []*TEvent)
+		walk = func(evs []*TEvent) {
+			for _, e := range evs {
+				if e.Kind == "loop" {
+					allocates = allocates || strings.Contains(renderEvents([]*TEvent{e}), "make:")
+				}
+				for _, a := range e.Args {
+					if strings.Contains(a.S, "make:") {
+						allocates = true
+					}
+				}
+			}
+		}
+		walk(p.Events)
+		if len(p.Ret) > 0 && strings.Contains(fmt.Sprint(p.Ret), "make:") {
+			allocates = true
+		}
+		guarded := false
+		for _, cd := range p.Conds {
+			s := cd.E.S
+			if (strings.Contains(s, "len(nodes) == 0") && !cd.Val) || (strings.Contains(s, "len(nodes) > 0") && cd.Val) || (strings.Contains(s, "len(nodes) < 1") && !cd.Val) || (strings.Contains(s, "len(nodes) != 0") && cd.Val) || (strings.Contains(s, "len(nodes) >= 1") && cd.Val) {
+				guarded = true
+			}
+		}
+		if allocates && !guarded {
+			bad = append(bad, fmt.Sprintf("a path of formatList allocates len(nodes)-1 separators without testing that the list is not empty [%s]", p.condString()))
+		}
+	}
+	c.addOb(prefix+"/helper/formatList/nil/empty-list", "nil", c.W.pos(fn.Pos()), len(bad) == 0, strings.Join(bad, "\n"))
+}
+
 var rePaired = regexp.MustCompile(`^ifNode(?:List)?\(n\.([A-Za-z0-9_]+), (".*")\)$`)
 
 // pathSaysAbsent: the path condition states that the child slot is nil / empty.
@@ -119,6 +175,35 @@ func (c *CheckCtx) checkFormatter(kinds []kindInfo) {
 			c.assume("formatter/pairing: a parsed tree has a companion token (`=`, `=>`, `:`, `extends`, `as`, `::` ...) exactly when it has the child the printer ties that token's default lexeme to (ifNode/ifNodeList); the formatter leaves such a slot alone when the child is absent")
 		}
 	}()
+	// F2 (no panic on absent optional children): which vertex slots can be nil in a parsed tree is read off both
+	// grammars (E-GRAM: every embedding of a node whose slot is not known to be filled at that moment)
+	runs := c.addGram(gramWant{Shape: true})
+	maybeNil := map[string]string{}
+	anyEmbeds := 0
+	for _, gn := range sortedKeys(runs) {
+		r := runs[gn]
+		if r == nil || r.Res == nil {
+			continue
+		}
+		anyEmbeds += r.Res.AnyEmbeds
+		for k, v := range r.Res.MaybeNil {
+			if _, ok := maybeNil[k]; !ok {
+				maybeNil[k] = v
+			}
+		}
+	}
+	c.CoverageExtra["formatter_nil_safety"] = map[string]interface{}{
+		"vertex_slots_that_can_be_nil_in_parsed_trees": len(maybeNil),
+		"embeddings_of_unknown_kind":                   anyEmbeds,
+		"note": "a vertex slot counts as possibly nil when some grammar action embeds a node of that kind whose slot is not known to be filled at that moment (non-terminal contracts of E-GRAM, both grammars); embeddings of nodes whose kind the abstract interpreter does not know contribute nothing (possible misses, counted)",
+	}
+	for _, d := range dirs["carrier-only"] {
+		if fs := strings.Fields(d); len(fs) > 0 {
+			delete(maybeNil, fs[0])
+			c.assume("formatter/nil-safety: " + strings.TrimSpace(d))
+		}
+	}
+	c.checkFormatListEmpty(f, prefix)
 	for ki := range kinds {
 		k := &kinds[ki]
 		name := fmt.Sprintf("%s.(*formatter).%s", prefix, k.Name)
@@ -132,10 +217,22 @@ func (c *CheckCtx) checkFormatter(kinds []kindInfo) {
 			continue
 		}
 		site := c.W.pos(f.Methods[k.Name].Pos())
-		var canonBad, frameBad, lexBad []string
+		var canonBad, frameBad, lexBad, nilBad []string
 		for _, p := range paths {
 			last := map[string]string{}
 			pc := p.condString()
+			for _, e := range p.Events {
+				if e.Kind != "call" || e.Callee != "Accept" || e.Recv == nil || !strings.HasPrefix(e.Recv.S, "n.") {
+					continue
+				}
+				slot := strings.TrimPrefix(e.Recv.S, "n.")
+				if s := k.slot(slot); s == nil || s.Class != "vertex" {
+					continue
+				}
+				if why, can := maybeNil[k.Name+"."+slot]; can && !pathSaysNonNil(p, slot) {
+					nilBad = append(nilBad, fmt.Sprintf("n.%s.Accept(f) is called without a nil test, but a parsed tree can have %s.%s == nil (%s) [%s]", slot, k.Name, slot, why, pc))
+				}
+			}
 			for _, e := range p.Events {
 				if e.Kind != "store" {
 					continue
@@ -206,16 +303,17 @@ func (c *CheckCtx) checkFormatter(kinds []kindInfo) {
 		c.addOb(name+"/trace/canon", "trace", site, len(canonBad) == 0, strings.Join(uniq(canonBad), "\n"))
 		c.addOb(name+"/trace/frame", "trace", site, len(frameBad) == 0, strings.Join(uniq(frameBad), "\n"))
 		c.addOb(name+"/trace/lexeme", "trace", site, len(lexBad) == 0, strings.Join(uniq(lexBad), "\n"))
+		c.addOb(name+"/nil/absent-child", "nil", site, len(nilBad) == 0, strings.Join(uniq(nilBad), "\n"))
 	}
 }
 
 func buildC17(c *CheckCtx) {
 	c.Level = "other"
-	c.Technique = "per-kind formatter contracts over symbolic traces of its 155 methods (E-TRACE): every token slot re-made or cleared, only token slots written, formatter lexemes equal the printer's canonical lexemes"
+	c.Technique = "per-kind formatter contracts over symbolic traces of its 155 methods (E-TRACE): every token slot re-made or cleared, only token slots written, formatter lexemes equal the printer's canonical lexemes, possibly-absent children (from E-GRAM's non-terminal contracts) tested for nil"
 	kinds := astKinds(c.W)
 	c.checkFormatter(kinds)
 	c.CoverageExtra["kinds"] = len(kinds)
-	c.Explain = "Covers, for every node kind and every path of its formatter method: (canon) every token slot is assigned and ends as nil or as a token the formatter made in this call, so no parsed token with source trivia survives and the printed text of a formatted tree is a function of structure and leaf values (second sentence of C17); (frame) the method writes only token slots of its node and formatter state, so the node structure and values are those of the parsed tree (the structural half of the first sentence); (lexeme) formatter-made tokens carry the printer's canonical lexeme of their slot. NOT decided: that the printed text parses without errors into the same tree, idempotence through print and re-parse, and absence of panics on absent optional children (known: `$a[]`, `list()`); these need the parser in the loop and are not contracts on any formatter function."
+	c.Explain = "Covers, for every node kind and every path of its formatter method: (canon) every token slot is assigned and ends as nil or as a token the formatter made in this call, so no parsed token with source trivia survives and the printed text of a formatted tree is a function of structure and leaf values (second sentence of C17); (frame) the method writes only token slots of its node and formatter state, so the node structure and values are those of the parsed tree (the structural half of the first sentence); (lexeme) formatter-made tokens carry the printer's canonical lexeme of their slot. (nil) a vertex slot that can be nil at the moment a grammar action embeds the node (E-GRAM non-terminal contracts, both grammars) is tested for nil before n.Slot.Accept(f) on every path, and formatList allocates only for a non-empty list. NOT decided: that the printed text parses without errors into the same tree and idempotence through print and re-parse; these need the parser in the loop and are not contracts on any formatter function."
 	c.assume("the trace extractor (E-TRACE) is part of the trusted base; helpers newToken/newSemicolonTkn/formatList/formatStmts are pinned by exact-trace contracts")
 }
 
